@@ -77,7 +77,7 @@ type Scenario struct {
 	Salt      uint64    `json:"salt,omitempty"`
 	Pins      []sim.Pin `json:"pins,omitempty"`
 	NoHooks   bool      `json:"no_hooks,omitempty"`
-	Push      bool      `json:"push,omitempty"` // the servers are push-enabled (LoopOptions.ServerOptions.AllowPush)
+	Push      bool      `json:"push,omitempty"`     // the servers are push-enabled (LoopOptions.ServerOptions.AllowPush)
 	SlotCtx   bool      `json:"slot_ctx,omitempty"` // one slot per server, and every request context derives from the loop's context (ServerOptions.Concurrency 1, NewContext)
 	Steps     []Step    `json:"steps"`
 }
